@@ -12,6 +12,7 @@ import (
 	"os"
 	"path"
 	"regexp"
+	"runtime/pprof"
 	"sort"
 	"strings"
 
@@ -42,7 +43,89 @@ type fileT struct {
 	path string
 	mode int // numeric git mode; 0160000 = submodule entry (data seeds the fake hash)
 	data []byte
-	drop bool // the blob is removed from the object store after the repository has been built
+	drop bool  // the blob is removed from the object store after the repository has been built
+	gen  *genT // big contents are written into the case line as this recipe instead of byte by byte (data = gen.expand())
+}
+
+// genT is the recipe of a big blob: size bytes of text (style 0: 32-byte numbered lines) or of non-zero
+// pseudo-random bytes (style 1), byte i depending on (seed, i) only - two recipes with the same seed share the
+// prefix of the shorter one -, then single bytes overwritten (NUL bytes, the place where two versions differ).
+type genT struct {
+	size, seed, style int
+	patches           [][2]int // (offset, value), applied in order, ignored beyond size
+}
+
+func (g genT) expand() []byte {
+	b := make([]byte, g.size)
+	pow := [7]int{1000000, 100000, 10000, 1000, 100, 10, 1}
+	for i := range b {
+		if g.style == 0 {
+			line, col := i/32, i%32
+			switch {
+			case col == 31:
+				b[i] = '\n'
+			case col < 7:
+				b[i] = byte('0' + (line/pow[col])%10)
+			case col == 7:
+				b[i] = ' '
+			default:
+				b[i] = byte('a' + (g.seed+line*7+col*3)%26)
+			}
+		} else {
+			x := uint32(i)*2654435761 ^ uint32(g.seed)*40503
+			x ^= x >> 15
+			x *= 2246822519
+			x ^= x >> 13
+			b[i] = 1 + byte(x%255)
+		}
+	}
+	for _, p := range g.patches {
+		if p[0] >= 0 && p[0] < len(b) {
+			b[p[0]] = byte(p[1])
+		}
+	}
+	return b
+}
+
+func (g genT) sx() Sx {
+	l := []Sx{I(g.size), I(g.seed), I(g.style)}
+	for _, p := range g.patches {
+		l = append(l, L(I(p[0]), I(p[1])))
+	}
+	return T("g", l...)
+}
+
+func genFromSx(s Sx) *genT {
+	a := s.Args()
+	g := &genT{size: a[0].Int(), seed: a[1].Int(), style: a[2].Int()}
+	for _, p := range a[3:] {
+		g.patches = append(g.patches, [2]int{p.List[0].Int(), p.List[1].Int()})
+	}
+	return g
+}
+
+// genFile makes a file whose contents come from a recipe.
+func genFile(path string, mode int, g genT) fileT {
+	return fileT{path: path, mode: mode, data: g.expand(), gen: &g}
+}
+
+// bigLimit: contents longer than this are written into the observations as (big <length> <checksum> <checksum2>);
+// shorter ones byte by byte.
+const bigLimit = 600
+
+func checksum2(b []byte) int {
+	s := 7
+	for _, x := range b {
+		s = (s*257 + int(x)*7 + 1) % 2147483629
+	}
+	return s
+}
+
+func dataSx(b []byte) Sx {
+	if len(b) > bigLimit {
+		return T("big", I(len(b)), I(checksum(b)), I(checksum2(b)))
+	}
+	return Bytes(b)
 }
 
 type commitT struct {
@@ -121,7 +204,11 @@ func cfgFromSx(s Sx) cfgT {
 func (c commitT) sx() Sx {
 	fs := make([]Sx, len(c.files))
 	for i, f := range c.files {
-		fs[i] = T("f", A(f.path), I(f.mode), B(f.drop), Bytes(f.data))
+		if f.gen != nil {
+			fs[i] = T("f", A(f.path), I(f.mode), B(f.drop), f.gen.sx())
+		} else {
+			fs[i] = T("f", A(f.path), I(f.mode), B(f.drop), Bytes(f.data))
+		}
 	}
 	return T("c", T("parents", Ints(c.parents).List...), T("files", fs...))
 }
@@ -135,6 +222,12 @@ func commitFromSx(s Sx) commitT {
 	f, _ = s.Field("files")
 	for _, x := range f.Args() {
 		a := x.Args()
+		if a[3].Tag() == "g" {
+			f := genFile(a[0].Atom, a[1].Int(), *genFromSx(a[3]))
+			f.drop = a[2].Int() != 0
+			c.files = append(c.files, f)
+			continue
+		}
 		var data []byte
 		for _, b := range a[3].List {
 			data = append(data, byte(b.Int()))
@@ -389,7 +482,7 @@ func runCase(cs caseT) (obs []Sx, nontrivial bool, flip bool) {
 			rd, _ := b.Reader()
 			data, _ := io.ReadAll(rd)
 			rd.Close()
-			blobs = append(blobs, L(I(r.id(h)), Bytes(data)))
+			blobs = append(blobs, L(I(r.id(h)), dataSx(data)))
 		}
 	}
 	var paths []string
@@ -400,15 +493,24 @@ func runCase(cs caseT) (obs []Sx, nontrivial bool, flip bool) {
 	vendor := []Sx{B(enry.IsVendor(""))}
 	name := []Sx{B(td0.NameFilter != nil), B(td0.NameFilter != nil && td0.NameFilter.MatchString(""))}
 	for _, p := range paths {
-		vendor = append(vendor, L(A(p), B(enry.IsVendor(p))))
-		name = append(name, L(A(p), B(td0.NameFilter != nil && td0.NameFilter.MatchString(p))))
+		if len(td0.SkipFiles) > 0 { // filterDiffs does not consult enry.IsVendor otherwise (and it is slow)
+			vendor = append(vendor, L(A(p), B(enry.IsVendor(p))))
+		}
+		if td0.NameFilter != nil {
+			name = append(name, L(A(p), B(td0.NameFilter.MatchString(p))))
+		}
 	}
 	lang := []Sx{B(td0.Languages["all"])}
-	for _, x := range phList {
-		lang = append(lang, L(A(x.p), I(r.id(x.h)), B(langVerdict(td0.Languages, repo, x.p, x.h))))
+	verdicts := map[ph]bool{}
+	if !td0.Languages["all"] { // the table is not consulted otherwise
+		for _, x := range phList {
+			v := langVerdict(td0.Languages, repo, x.p, x.h)
+			verdicts[x] = v
+			lang = append(lang, L(A(x.p), I(r.id(x.h)), B(v)))
+		}
 	}
 	// does the language verdict of some path differ between a commit and one of its parents?
-	verdict := func(l leaf) bool { return td0.Languages["all"] || langVerdict(td0.Languages, repo, l.path, l.hash) }
+	verdict := func(l leaf) bool { return td0.Languages["all"] || verdicts[ph{l.path, l.hash}] }
 	for i := range commits {
 		for _, p := range cs.commits[i].parents {
 			if p < 0 || p >= len(commits) {
@@ -443,10 +545,18 @@ func runCase(cs caseT) (obs []Sx, nontrivial bool, flip bool) {
 	branches := []branchT{{td0, bc0}}
 	// the per-branch memory of every branch after a step; a branch whose memory reads exactly as after
 	// the previous step is not repeated (the driver then requires the model's branch to be unchanged too)
+	// With more than 64 branches a step looks at the branch it touched, at the new branches, at a window of 16
+	// further branches that moves on with every step, and the last step looks at all of them.
 	var lastSnap []string
-	snapshot := func() Sx {
+	stepNo := 0
+	snapshot := func(touched int, last bool) Sx {
 		l := []Sx{I(len(branches))}
+		stepNo++
+		nb := len(branches)
 		for i, b := range branches {
+			if nb > 64 && !last && i != touched && i < len(lastSnap) && (i-stepNo*16%nb+nb)%nb >= 16 {
+				continue
+			}
 			pc, has, pt := api.TreeDiffState(b.td)
 			st := api.BlobCacheState(b.bc)
 			var keys []plumbing.Hash
@@ -473,7 +583,8 @@ func runCase(cs caseT) (obs []Sx, nontrivial bool, flip bool) {
 		return T("all", l...)
 	}
 	var steps []Sx
-	for _, o := range cs.ops {
+	for oi, o := range cs.ops {
+		lastStep := oi == len(cs.ops)-1
 		if o.b < 0 || o.b >= len(branches) || (o.kind == "consume" && (o.c < 0 || o.c >= len(commits))) {
 			steps = append(steps, T("s", T("skip")))
 			continue
@@ -483,14 +594,14 @@ func runCase(cs caseT) (obs []Sx, nontrivial bool, flip bool) {
 		case "init":
 			br.td.Initialize(repo)
 			br.bc.Initialize(repo)
-			steps = append(steps, T("s", T("init"), snapshot()))
+			steps = append(steps, T("s", T("init"), snapshot(o.b, lastStep)))
 		case "fork":
 			tds := br.td.Fork(o.n)
 			bcs := br.bc.Fork(o.n)
 			for i := range tds {
 				branches = append(branches, branchT{tds[i].(*api.TreeDiff), bcs[i].(*api.BlobCache)})
 			}
-			steps = append(steps, T("s", T("fork"), snapshot()))
+			steps = append(steps, T("s", T("fork"), snapshot(o.b, lastStep)))
 		case "consume":
 			commit := commits[o.c]
 			pc, has, pt := api.TreeDiffState(br.td)
@@ -549,12 +660,12 @@ func runCase(cs caseT) (obs []Sx, nontrivial bool, flip bool) {
 					ks := make([]Sx, len(keys))
 					for j, k := range keys {
 						cb := cache[k]
-						ks[j] = L(I(r.id(k)), I(r.id(cb.Hash)), I64(cb.Size), Bytes(cb.Data))
+						ks[j] = L(I(r.id(k)), I(r.id(cb.Hash)), I64(cb.Size), dataSx(cb.Data))
 					}
 					fields = append(fields, T("bc", A("ok")), T("cache", ks...))
 				}
 			}
-			fields = append(fields, snapshot())
+			fields = append(fields, snapshot(o.b, lastStep))
 			steps = append(steps, T("s", fields...))
 		default:
 			panic("unknown op " + o.kind)
@@ -601,6 +712,11 @@ func caseFromSx(s Sx) caseT {
 func main() {
 	c := Setup()
 	defer c.Close()
+	if pf := os.Getenv("C20_PROF"); pf != "" {
+		f, _ := os.Create(pf)
+		pprof.StartCPUProfile(f)
+		defer pprof.StopCPUProfile()
+	}
 	// the items log every refused commit and every unreadable blob with a stack trace: silence them
 	if null, err := os.OpenFile(os.DevNull, os.O_WRONLY, 0); err == nil {
 		os.Stderr = null
